@@ -44,13 +44,25 @@ func c15Origin(cacheable bool) func(oc *env.OriginCall) env.OriginResp {
 	}
 }
 
+// multiset renders the parameters of a query as a sorted list. Pairs are separated by '&' only; a pair Go's parser
+// rejects (it contains ';' or a stray '%') is kept as its raw bytes — the client sent it, the upstream must see it.
 func multiset(q string) string {
-	v, _ := url.ParseQuery(q)
 	var ps []string
-	for k, vs := range v {
-		for _, x := range vs {
-			ps = append(ps, k+"="+x)
+	for _, pair := range strings.Split(q, "&") {
+		if pair == "" {
+			continue
 		}
+		kv := strings.SplitN(pair, "=", 2)
+		k, err1 := url.QueryUnescape(kv[0])
+		val, err2 := "", error(nil)
+		if len(kv) == 2 {
+			val, err2 = url.QueryUnescape(kv[1])
+		}
+		if err1 != nil || err2 != nil || strings.Contains(pair, ";") {
+			ps = append(ps, "raw:"+pair)
+			continue
+		}
+		ps = append(ps, k+"="+val)
 	}
 	sort.Strings(ps)
 	return strings.Join(ps, "&")
@@ -93,7 +105,7 @@ func init() {
 			c15Mix(c)
 			return
 		}
-		queries := []string{"", "a=1", "b=2&a=1", "a=", "a=1&a=2", "q=%20+x"}
+		queries := []string{"", "a=1", "b=2&a=1", "a=", "a=1&a=2", "q=%20+x", "type=vip;page=2", "q=100%&a=1"}
 		locs := []c15Loc{
 			{},
 			{Rewrite: "/api/*:/$1", ReqH: []string{"X-Req:q1"}, RespH: []string{"X-Resp:r1"}, Query: []string{"k:v"}},
